@@ -81,6 +81,11 @@ CLAIMS['C10'] = dict(level='other', technique='sibling predicate agreement by cu
     note='Narrow necessary conditions; the membership algebra itself is a run-time relation between sets.',
     ref='§4 C10')
 
+CLAIMS['C09'] = dict(level='other', technique='dominance / must-pass / true-edge guard queries on the MIR CFGs of the merge functions, provenance (def-use) of the version deciding split points and of the file sets handed to the recursion, order of membership update vs recursion by reachability, error propagation, loop progress',
+    text='Decides structural necessary conditions only: an element of the new file is queued for import only if it was not already paired with a model element; an imported element is attributed to the new file alone, re-parented and inserted at a position clamped into calc_element_insert_range (failure = InvalidFileMerge); model-only elements are restricted to the files the parent had before; the recursion receives the file set without the new file and a local set gains the new file only afterwards; a divergence below a parent is accepted only if splittable_in(min(version of the old files, version of the new file)); merge errors are propagated to load_buffer; the pairwise walk always advances. Does NOT decide that the merged content is the union for every distribution over files nor that it is independent of the load order.',
+    note='Narrow necessary conditions; union/order-independence are equalities between run-time trees built by a data-dependent positional walk.',
+    ref='§4 C09')
+
 NA = {
     'C16': 'serialisability quantifies over interleavings and compares with sequential runs; the only static route (two-phase/reduction analysis) rejects essentially every public operation of the present design, so it cannot separate code that holds the property from code that does not',
     'C20': 'statement about numeric results (exactness, correct rounding, overflow per width) computed by std parsers for all texts; no static argument in reach bounds these run-time quantities',
